@@ -36,7 +36,7 @@ from .. import core
 PROPERTY = "C36"
 LEVEL = "exploration"
 META = {
-    "engine": "vtx",
+    "engine": "enum",
     "technique": "bounded-exhaustive input enumeration (no scheduler run): grid of boundary time values x representations x "
     "conversions, all ordered pairs, judged by exact integer/Fraction arithmetic",
     "text": "every value of a grid of microsecond counts around 0, +-1 us, second and day boundaries, 2^31 s and 10^15 us "
